@@ -71,6 +71,14 @@ def patch(data, hdrs, mode, rng):
             fts[j] = fts[j - 1] - rng.choice([1, 9, 10, 11])   # 100 ns ticks: below / at / above a microsecond
     elif mode == "shuffled":
         rng.shuffle(fts)
+    elif mode == "displaced":
+        # the stored order stays as shipped except for a few records displaced by (nearly) the whole file: records near the
+        # end carry the earliest times, records near the start the latest
+        lo, hi = min(fts), max(fts)
+        for k, j in enumerate(rng.sample(range(max(0, n - max(3, n // 10)), n), min(n, rng.randint(1, 3)))):
+            fts[j] = lo - (k + 1) * rng.choice([10, 10_000_000, 36_000_000_000])
+        for k, j in enumerate(rng.sample(range(0, max(1, n // 10)), min(max(1, n // 10), rng.randint(0, 2)))):
+            fts[j] = hi + (k + 1) * rng.choice([10, 10_000_000])
     for (pos, size, rid, _), ft in zip(hdrs, fts):
         struct.pack_into("<Q", b, pos + 16, ft)
     return bytes(b)
@@ -101,7 +109,8 @@ def run(ctx):
     h = core.build_harness()
     rng = ctx.rng
     d = ctx.casedir("evtx")
-    ctx.rule = ("2 shipped .evtx files + header-time patched variants (ties, all equal, reversed runs, sub-millisecond, one 100 ns tick, shuffled) x "
+    ctx.rule = ("2 shipped .evtx files + header-time patched variants (ties, all equal, reversed runs, sub-millisecond, one 100 ns tick, shuffled, a few records displaced by "
+                "nearly the whole file) x "
                 "windows with bounds before/on/+-1us/between/after record times and A=B x plain/gz/bz2/xz/lz4/tar; distinct = (file, variant, window "
                 "class, container)")
     ctx.assumptions = ["the evtx crate decodes record headers correctly and does not verify chunk checksums by default"]
@@ -113,7 +122,7 @@ def run(ctx):
         hdrs = record_headers(data)
         if len(hdrs) < 4:
             continue
-        modes = ["ties", "all-equal", "reversed-runs", "sub-ms", "one-tick", "shuffled"]
+        modes = ["ties", "all-equal", "reversed-runs", "sub-ms", "one-tick", "shuffled", "displaced"]
         for m in modes:
             for rep in range(ctx.pick(4, 12)):
                 variants.append((base, "%s-%d" % (m, rep), patch(data, hdrs, m, rng)))
@@ -135,8 +144,15 @@ def run(ctx):
         for _ in range(nwin):
             if not inst:
                 break
-            k = rng.choice(["on", "on", "a=b", "pm1us", "between", "outside", "a-only", "b-only"])
+            k = rng.choice(["on", "on", "a=b", "pm1us", "between", "outside", "a-only", "b-only", "b-low", "a-high"])
             x, y = sorted([rng.choice(inst), rng.choice(inst)])
+            if k == "b-low":
+                # only the few earliest records are inside: wherever they are stored, they are due
+                x, y, k = None, rng.choice(inst[:4]), rng.choice(["b-only", "b-low-with-a"])
+                if k == "b-low-with-a":
+                    x = inst[0] - rng.choice([0, gen.NS])
+            elif k == "a-high":
+                x, y, k = rng.choice(inst[-4:]), None, "a-only"
             if k == "a=b":
                 y = x
             elif k == "pm1us":
